@@ -15,6 +15,12 @@ U(sph, km) == IF sph THEN Rat(km, 100) ELSE km * Km   \* horizontal unit: km or 
 XY(sph, x, y) == <<U(sph, x), U(sph, y)>>
 RectU(sph, x0, y0, x1, y1) == <<XY(sph,x0,y0), XY(sph,x1,y0), XY(sph,x1,y1), XY(sph,x0,y1)>>
 
+(* a composition that depends on the temperature of the finished world at the point (tian2019_water_content.cc) *)
+TianWater == ("model" :> "tian water content") @@ ("compositions" :> <<1>>) @@ ("lithology" :> "peridotite")
+             @@ ("initial water content" :> 2) @@ ("cutoff pressure" :> 10)
+
+(* "late" is listed after the slab and heats part of it: the slab's bound-water model reads the temperature of the
+   finished world (600 + 400 K, where the parameterisation is sensitive), so one property depends on another one *)
 Features(sph) ==
   << Area("continental plate", "cont", RectU(sph, 0, 0, 500, 500), 0, 200*Km,
           <<TUniform(150, "replace")>>, <<CUniform(<<0>>, "replace")>>,
@@ -30,12 +36,14 @@ Features(sph) ==
            <<GUniform(<<0>>, <<Mat(30)>>, <<1>>)>>, <<VUniform(<<0, 0, 9>>)>>),
      Line("subducting plate", "slab", <<XY(sph,700,-100), XY(sph,700,600)>>, XY(sph,1000,0), 0, 600*Km,
           <<Segment(300*Km, <<100*Km>>, <<0>>, <<45>>)>>,
-          <<TUniform(600, "replace")>>, <<CUniform(<<2>>, "replace")>>,
+          <<TUniform(600, "replace")>>, <<CUniform(<<2>>, "replace"), TianWater>>,
           <<GUniform(<<0, 1>>, <<Mat(40), Mat(50)>>, <<Dec(1,-1), Dec(2,-1)>>)>>, <<VUniform(<<1, 1, 1>>)>>),
      Line("fault", "fault", <<XY(sph,300,-100), XY(sph,300,600)>>, XY(sph,0,0), 0, 600*Km,
           <<Segment(200*Km, <<50*Km>>, <<0>>, <<90>>)>>,
           <<TUniform(700, "replace")>>, <<CUniform(<<4>>, "replace")>>,
-          <<>>, <<VUniform(<<2, 2, 2>>)>>) >>
+          <<>>, <<VUniform(<<2, 2, 2>>)>>),
+     Area("mantle layer", "late", RectU(sph, 750, 200, 900, 450), 100*Km, 200*Km,
+          <<TUniform(400, "add")>>, <<>>, <<>>, <<>>) >>
 
 
 (* a cooling oceanic plate north of everything else: its temperature depends continuously on the
